@@ -6,8 +6,9 @@ Property theorems only; the model is `QtVerif/Model/Slave.lean`, helper lemmas a
 `QtVerif/Proofs/SlaveProvision.lean`. The theorems hold for every master state, every number of ports, every set of
 offline edits, every sequence of messages reaching the master before the reconnect (`Inc`: events reported by
 the slave, handled by the listen loop BEFORE `apply_provisioning`, and ticks of the hub's polling loop), both sync
-modes, every answer of the refresh fetches. `Fix.repaired` = the code with fixes/C13-*.diff applied;
-`Fix.asFound` = the pinned commit, for which the two `unrepaired_…` theorems prove the negation.
+modes, every answer of the refresh fetches. `Fix.repaired` = the code with fixes/C13-*.diff applied
+(`valueBody`, `keepPending`, `keepPendingValue`); `Fix.asFound` = the pinned commit; the `unrepaired_…` theorems prove
+the negation with the corresponding repair switched off.
 -/
 namespace QtVerif.Slave.C13
 open QtVerif.Slave
@@ -48,18 +49,20 @@ theorem offline_device_edit_pending (m : Master) (hoff : m.online = false) (n : 
   rw [editDev_offline m hoff]
   exact ⟨rfl, mem_addName _ _, Attrs.get?_set_same _ _ _⟩
 
-/-- **Kept.** Whatever the slave reports before the reconnect (value changes, port updates carrying other
-attributes and its own value, additions/removals of other ports, device updates) and however the hub's polling
-loop ticks in between, the pending edits of a port that is not removed survive: same pending names, every pending
-attribute still holds the user's value, and — the remote queue having been read out when the value was written —
-the pending value is still the user's. (Repaired `_handle_port_update`.) -/
-theorem offline_edits_pending_and_kept (vb : Bool) (m : Master) (incs : List Inc) (id : Nat) (p : MPort)
-    (hp : findPort m.ports id = some p) (hnr : Inc.ev (.portRemove id) ∉ incs) (hq : p.rq = []) :
-    ∃ p', findPort (runInc ⟨vb, true⟩ m incs).ports id = some p' ∧
+/-- **Kept, with `read_value` as found or repaired (`kv`), the remote queue having been read out.** Whatever the
+slave reports before the reconnect (value changes, port updates carrying other attributes and its own value,
+additions/removals of other ports, device updates) and however the hub's polling loop ticks in between, the pending
+edits of a port that is not removed survive: same pending names, every pending attribute still holds the user's
+value, and — the remote queue having been read out when the value was written (`hq`) — the pending value is still
+the user's. (Repaired `_handle_port_update`; `hq` is needed for `kv = false` only, see
+`unrepaired_offline_write_over_unread_queue_is_lost`; `offline_edits_pending_and_kept` below does without.) -/
+theorem offline_edits_pending_and_kept_queue_read_out (vb kv : Bool) (m : Master) (incs : List Inc) (id : Nat)
+    (p : MPort) (hp : findPort m.ports id = some p) (hnr : Inc.ev (.portRemove id) ∉ incs) (hq : p.rq = []) :
+    ∃ p', findPort (runInc ⟨vb, true, kv⟩ m incs).ports id = some p' ∧
       p'.prov = p.prov ∧ p'.provValue = p.provValue ∧
       (∀ nv ∈ p.pendAttrs, nv ∈ p'.pendAttrs) ∧
       (∀ v, p.pendValue = some v → p'.pendValue = some v) := by
-  obtain ⟨p', hp', k1, k2, k3, k4, _⟩ := runInc_port_kept vb id incs m p hp hnr
+  obtain ⟨p', hp', k1, k2, k3, k4, _⟩ := runInc_port_kept vb kv id incs m p hp hnr
   refine ⟨p', hp', k1, k2, ?_, ?_⟩
   · rintro ⟨n, v⟩ hnv
     obtain ⟨hn, hv⟩ := mem_pendAttrs.mp hnv
@@ -68,6 +71,26 @@ theorem offline_edits_pending_and_kept (vb : Bool) (m : Master) (incs : List Inc
     have hs : p.pendValue.isSome := by rw [hv]; rfl
     unfold MPort.pendValue at *
     rw [k2, k3 hs hq]; exact hv
+
+/-- **Kept.** Repaired `_handle_port_update` and repaired `read_value`: the same WHATEVER is still queued on the port
+when the value is written — the hub's ticks report the queued values (`lastRead`) but leave `_cached_value`, the
+value to push, alone while a value is pending. -/
+theorem offline_edits_pending_and_kept (vb : Bool) (m : Master) (incs : List Inc) (id : Nat) (p : MPort)
+    (hp : findPort m.ports id = some p) (hnr : Inc.ev (.portRemove id) ∉ incs) :
+    ∃ p', findPort (runInc ⟨vb, true, true⟩ m incs).ports id = some p' ∧
+      p'.prov = p.prov ∧ p'.provValue = p.provValue ∧
+      (∀ nv ∈ p.pendAttrs, nv ∈ p'.pendAttrs) ∧
+      (∀ v, p.pendValue = some v → p'.pendValue = some v) := by
+  obtain ⟨p', hp', k1, k2, _, k4, _⟩ := runInc_port_kept vb true id incs m p hp hnr
+  obtain ⟨p'', hp'', kv⟩ := runInc_port_keptV ⟨vb, true, true⟩ rfl id incs m p hp hnr
+  have : p'' = p' := Option.some.inj (hp''.symm.trans hp')
+  subst this
+  refine ⟨p'', hp', k1, k2, ?_, ?_⟩
+  · rintro ⟨n, v⟩ hnv
+    obtain ⟨hn, hv⟩ := mem_pendAttrs.mp hnv
+    exact mem_pendAttrs.mpr ⟨by rw [k1]; exact hn, k4 n hn v hv⟩
+  · intro v hv
+    exact kv.pendValue hv
 
 /-- The same for device attributes (as written, `_handle_device_update` drops an update that mentions a pending
 attribute; every device update reports the whole attribute set: `DevReports`). -/
@@ -108,18 +131,18 @@ theorem pushed_exactly_once_before_refresh (rf : List Nat) (m : Master) (d : Att
   · intro p hp
     exact ⟨reconnect_value_reqs _ m p hp hnd, reconnect_attr_reqs _ m p hp hnd⟩
 
-/-- End to end: a value written while offline, then anything the slave reports and any ticks, then the
-reconnect: the slave receives exactly one value request for that port, and its body is the value the user set. -/
+/-- End to end: a value written while offline — whatever remote values are still queued on the port at that moment —
+then anything the slave reports and any ticks, then the reconnect: the slave receives exactly one value request for
+that port, and its body is the value the user set. -/
 theorem offline_value_pushed_with_user_value (rf : List Nat) (m : Master) (hoff : m.online = false)
-    (id : Nat) (v : Int) (ok : Bool) (p : MPort) (hp : findPort m.ports id = some p) (hq : p.rq = [])
+    (id : Nat) (v : Int) (ok : Bool) (p : MPort) (hp : findPort m.ports id = some p)
     (incs : List Inc) (hnr : Inc.ev (.portRemove id) ∉ incs) (d : Attrs) (ps : List PortMsg)
     (hnd : ((runInc Fix.repaired (editValue m id v ok).1 incs).ports.map (·.id)).Nodup) :
     (handleOnline Fix.repaired rf (runInc Fix.repaired (editValue m id v ok).1 incs) (some d) (some ps)).1.filter
       (Req.isValuePushFor id) = [Req.patchValue id (some v)] := by
-  obtain ⟨_, p1, hp1, _, hv1, hr1⟩ := offline_value_edit_pending m hoff id v ok p hp
-  have hq1 : p1.rq = [] := by rw [hr1]; exact hq
+  obtain ⟨_, p1, hp1, _, hv1, _⟩ := offline_value_edit_pending m hoff id v ok p hp
   obtain ⟨p2, hp2, _, _, _, hv2⟩ :=
-    offline_edits_pending_and_kept true (editValue m id v ok).1 incs id p1 hp1 hnr hq1
+    offline_edits_pending_and_kept true (editValue m id v ok).1 incs id p1 hp1 hnr
   have h := (pushed_exactly_once_before_refresh rf _ d ps hnd).choose_spec.choose_spec.2.2.2.2.1 p2
     (findPort_mem_p hp2)
   rw [findPort_some_id hp2, hv2 v hv1] at h
@@ -137,11 +160,11 @@ offline, then anything the slave reports and any ticks, then the reconnect — t
 request for that port, carrying the value the user set. -/
 theorem offline_value_pushed_end_to_end (rf : List Nat) (m : Master) (hoff : m.online = false)
     (hnd : (m.ports.map (·.id)).Nodup) (id : Nat) (v : Int) (ok : Bool) (p : MPort)
-    (hp : findPort m.ports id = some p) (hq : p.rq = []) (incs : List Inc)
+    (hp : findPort m.ports id = some p) (incs : List Inc)
     (hnr : Inc.ev (.portRemove id) ∉ incs) (d : Attrs) (ps : List PortMsg) :
     (handleOnline Fix.repaired rf (runInc Fix.repaired (editValue m id v ok).1 incs) (some d) (some ps)).1.filter
       (Req.isValuePushFor id) = [Req.patchValue id (some v)] :=
-  offline_value_pushed_with_user_value rf m hoff id v ok p hp hq incs hnr d ps
+  offline_value_pushed_with_user_value rf m hoff id v ok p hp incs hnr d ps
     (nodup_runInc _ incs _ (nodup_editValue m hoff id v ok hnd))
 
 /-- The same for a port ATTRIBUTE: edited while offline, kept across everything the slave reports, then pushed in
@@ -153,7 +176,7 @@ theorem offline_attr_pushed_end_to_end (rf : List Nat) (m : Master) (hoff : m.on
     ∃ body, (handleOnline Fix.repaired rf (runInc Fix.repaired (editAttr m id n v).1 incs) (some d) (some ps)).1.filter
       (Req.isAttrPushFor id) = [Req.patchPort id body] ∧ (n, v) ∈ body := by
   obtain ⟨_, p1, hp1, _, hv1⟩ := offline_attr_edit_pending m hoff id n v p hp
-  obtain ⟨p2, hp2, k1, _, _, k4, _⟩ := runInc_port_kept true id incs (editAttr m id n v).1 p1 hp1 hnr
+  obtain ⟨p2, hp2, k1, _, _, k4, _⟩ := runInc_port_kept true true id incs (editAttr m id n v).1 p1 hp1 hnr
   have hmem : (n, v) ∈ p2.pendAttrs := by
     obtain ⟨hn, hv⟩ := mem_pendAttrs.mp hv1
     exact mem_pendAttrs.mpr ⟨by rw [k1]; exact hn, k4 n hn v hv⟩
@@ -259,13 +282,15 @@ theorem registry_ids_stay_distinct_off (fix : Fix) (m : Master) (hoff : m.online
   nodup_runOff fix h m hoff hnd
 
 /-- **Several value writes during one outage: the LAST one is pushed, exactly once.** The history is split at
-any value write to the port made when its remote queue had been read out (`hq`; e.g. the first write of the outage,
-see `queue_read_out_by_tick`); before it (`h1`) and after it (`h2`) anything may happen — events, ticks, further
-writes to the same port, edits of attributes, of other ports, of the device. The reconnect then sends exactly one
-value request for the port and it carries the last value the user wrote in the whole history. -/
+any value write to the port — whatever remote values are still queued on it at that moment (repaired `read_value`;
+with `read_value` as found the queue has to have been read out: `offline_value_writes_last_pushed_queue_read_out`,
+`unrepaired_offline_write_over_unread_queue_is_lost`); before it (`h1`) and after it (`h2`) anything may happen —
+events, ticks, further writes to the same port, edits of attributes, of other ports, of the device. The reconnect
+then sends exactly one value request for the port and it carries the last value the user wrote in the whole
+history. -/
 theorem offline_value_writes_last_pushed (rf : List Nat) (m : Master) (hoff : m.online = false)
     (hnd : (m.ports.map (·.id)).Nodup) (id : Nat) (h1 h2 : List Off) (v0 : Int) (ok0 : Bool) (p1 : MPort)
-    (hp1 : findPort (runOff Fix.repaired m h1).ports id = some p1) (hq : p1.rq = [])
+    (hp1 : findPort (runOff Fix.repaired m h1).ports id = some p1)
     (hnr : Off.ev (.portRemove id) ∉ h2) (d : Attrs) (ps : List PortMsg) :
     ∃ v, lastValue id (h1 ++ [.editValue id v0 ok0] ++ h2) = some v ∧
       (handleOnline Fix.repaired rf (runOff Fix.repaired m (h1 ++ [.editValue id v0 ok0] ++ h2)) (some d)
@@ -274,14 +299,13 @@ theorem offline_value_writes_last_pushed (rf : List Nat) (m : Master) (hoff : m.
   have hoff1 := runOff_online Fix.repaired h1 m hoff
   rw [runOff_append, runOff_append]
   -- the write itself
-  obtain ⟨p2, hp2, hr2⟩ := stepOff_port true (runOff Fix.repaired m h1) (.editValue id v0 ok0) id p1 hoff1 hp1
+  obtain ⟨p2, hp2, hr2⟩ := stepOff_port true true (runOff Fix.repaired m h1) (.editValue id v0 ok0) id p1 hoff1 hp1
     (by intro h; cases h)
   simp only [PortRel, if_true] at hr2
   have hv2 : p2.pendValue = some v0 := by rw [hr2]; rfl
-  have hq2 : p2.rq = [] := by rw [hr2]; exact hq
   have hoff2 := stepOff_online Fix.repaired _ (.editValue id v0 ok0) hoff1
   -- everything after it
-  obtain ⟨p3, hp3, hv3, _⟩ := runOff_value true id h2 _ p2 v0 hoff2 hp2 hnr hv2 hq2
+  obtain ⟨p3, hp3, hv3⟩ := runOff_valueV Fix.repaired rfl id h2 _ p2 v0 hoff2 hp2 hnr hv2
   have hnd3 : ((runOff Fix.repaired (runOff Fix.repaired (runOff Fix.repaired m h1) [.editValue id v0 ok0]) h2).ports.map
       (·.id)).Nodup :=
     nodup_runOff _ h2 _ hoff2 (nodup_runOff _ [_] _ hoff1 (nodup_runOff _ h1 m hoff hnd))
@@ -290,35 +314,79 @@ theorem offline_value_writes_last_pushed (rf : List Nat) (m : Master) (hoff : m.
   rw [findPort_some_id hp3, hv3] at h
   exact h.1
 
-/-- The hypothesis `hq` of `offline_value_writes_last_pushed` holds whenever the hub's polling loop has ticked on the
-(enabled) port since the last remote value arrived: `h1 = h0 ++ [.tick]`. -/
+/-- The same with `read_value` as found or repaired (`kv`), the write being made when the port's remote queue had been
+read out (`hq`; e.g. the first write of the outage, see `queue_read_out_by_tick`). -/
+theorem offline_value_writes_last_pushed_queue_read_out (kv : Bool) (rf : List Nat) (m : Master)
+    (hoff : m.online = false) (hnd : (m.ports.map (·.id)).Nodup) (id : Nat) (h1 h2 : List Off) (v0 : Int) (ok0 : Bool)
+    (p1 : MPort) (hp1 : findPort (runOff ⟨true, true, kv⟩ m h1).ports id = some p1) (hq : p1.rq = [])
+    (hnr : Off.ev (.portRemove id) ∉ h2) (d : Attrs) (ps : List PortMsg) :
+    ∃ v, lastValue id (h1 ++ [.editValue id v0 ok0] ++ h2) = some v ∧
+      (handleOnline ⟨true, true, kv⟩ rf (runOff ⟨true, true, kv⟩ m (h1 ++ [.editValue id v0 ok0] ++ h2)) (some d)
+        (some ps)).1.filter (Req.isValuePushFor id) = [Req.patchValue id (some v)] := by
+  refine ⟨valAfter id v0 h2, lastValue_split id h1 h2 v0 ok0, ?_⟩
+  have hoff1 := runOff_online ⟨true, true, kv⟩ h1 m hoff
+  rw [runOff_append, runOff_append]
+  obtain ⟨p2, hp2, hr2⟩ := stepOff_port true kv (runOff ⟨true, true, kv⟩ m h1) (.editValue id v0 ok0) id p1 hoff1 hp1
+    (by intro h; cases h)
+  simp only [PortRel, if_true] at hr2
+  have hv2 : p2.pendValue = some v0 := by rw [hr2]; rfl
+  have hq2 : p2.rq = [] := by rw [hr2]; exact hq
+  have hoff2 := stepOff_online ⟨true, true, kv⟩ _ (.editValue id v0 ok0) hoff1
+  obtain ⟨p3, hp3, hv3, _⟩ := runOff_value true kv id h2 _ p2 v0 hoff2 hp2 hnr hv2 hq2
+  have hnd3 : ((runOff ⟨true, true, kv⟩ (runOff ⟨true, true, kv⟩ (runOff ⟨true, true, kv⟩ m h1)
+      [.editValue id v0 ok0]) h2).ports.map (·.id)).Nodup :=
+    nodup_runOff _ h2 _ hoff2 (nodup_runOff _ [_] _ hoff1 (nodup_runOff _ h1 m hoff hnd))
+  have h := reconnect_value_reqs ⟨true, true, kv⟩ _ p3 (findPort_mem_p hp3) hnd3
+  rw [findPort_some_id hp3, hv3] at h
+  rw [handleOnline_reqs]
+  exact h
+
+/-- The hypothesis `hq` of `offline_value_writes_last_pushed_queue_read_out` holds whenever the hub's polling loop has
+ticked on the (enabled) port since the last remote value arrived: `h1 = h0 ++ [.tick]`. -/
 theorem queue_read_out_by_tick (fix : Fix) (m : Master) (h0 : List Off) (id : Nat) (p : MPort)
     (hp : findPort (runOff fix m h0).ports id = some p) (he : p.enabled = true) :
     ∃ p1, findPort (runOff fix m (h0 ++ [.tick])).ports id = some p1 ∧ p1.rq = [] := by
   rw [runOff_append]
-  exact quiet_after_tick _ id p hp he
+  exact quiet_after_tick fix _ id p hp he
 
 /-- Special case `h1 = []`: the former end-to-end theorem with any further edits interleaved after the write. -/
 theorem offline_value_pushed_end_to_end_with_edits (rf : List Nat) (m : Master) (hoff : m.online = false)
     (hnd : (m.ports.map (·.id)).Nodup) (id : Nat) (v0 : Int) (ok0 : Bool) (p : MPort)
-    (hp : findPort m.ports id = some p) (hq : p.rq = []) (h2 : List Off)
+    (hp : findPort m.ports id = some p) (h2 : List Off)
     (hnr : Off.ev (.portRemove id) ∉ h2) (d : Attrs) (ps : List PortMsg) :
     ∃ v, lastValue id (.editValue id v0 ok0 :: h2) = some v ∧
       (handleOnline Fix.repaired rf (runOff Fix.repaired m (.editValue id v0 ok0 :: h2)) (some d)
         (some ps)).1.filter (Req.isValuePushFor id) = [Req.patchValue id (some v)] :=
-  offline_value_writes_last_pushed rf m hoff hnd id [] h2 v0 ok0 p hp hq hnr d ps
+  offline_value_writes_last_pushed rf m hoff hnd id [] h2 v0 ok0 p hp hnr d ps
 
-/-- **`hq` cannot be dropped — it does NOT follow from the offline write.** `write_value` (offline branch) stores the
-user's value in `_cached_value` and leaves `_remote_value_queue` alone; if remote values are still queued (they
-arrived in one listen batch and the hub has not read them yet), the next `read_value` overwrites `_cached_value`
-with a queued SLAVE value and `get_provisioning_value()` then returns that: the reconnect pushes the slave's old
-value 7 back instead of the user's 42, exactly once. (Model-level witness, repaired code.) -/
-theorem offline_write_over_unread_queue_is_lost :
+/-- D14. **With `read_value` as found, `hq` cannot be dropped — it does NOT follow from the offline write.**
+`write_value` (offline branch) stores the user's value in `_cached_value` and leaves `_remote_value_queue` alone; if
+remote values are still queued (they arrived in one listen batch and the hub has not read them yet), the next
+`read_value` as found overwrites `_cached_value` with a queued SLAVE value and `get_provisioning_value()` then returns
+that: the reconnect pushes the slave's old value 7 back instead of the user's 42, exactly once. (The other two
+repairs applied, `keepPendingValue` off; repaired by fixes/C13-offline-write-kept-over-queued-values.diff.) -/
+theorem unrepaired_offline_write_over_unread_queue_is_lost :
+    let fx : Fix := ⟨true, true, false⟩
+    let m : Master := { wMaster with ports := [{ wPort with rq := [some 7] }] }
+    let m' := runOff fx m [.editValue 1 42 true, .tick]
+    lastValue 1 [.editValue 1 42 true, .tick] = some 42 ∧
+    (handleOnline fx [] m' (some []) (some [⟨1, [(0, 1), (3, 4)], some (some 7)⟩])).1.filter
+      (Req.isValuePushFor 1) = [Req.patchValue 1 (some 7)] := by
+  decide
+
+/-- The same history on the repaired code (non-vacuity of `offline_value_pushed_end_to_end_with_edits` with a
+non-empty queue): 42 is written over the unread `[7]`, the tick reports 7 (`lastRead`) and leaves 42 cached and
+pending, the reconnect pushes 42, exactly once. -/
+example :
     let m : Master := { wMaster with ports := [{ wPort with rq := [some 7] }] }
     let m' := runOff Fix.repaired m [.editValue 1 42 true, .tick]
+    m.online = false ∧ (m.ports.map (·.id)).Nodup ∧
+    (findPort m.ports 1).map (·.rq) = some [some 7] ∧ Off.ev (.portRemove 1) ∉ [Off.tick] ∧
     lastValue 1 [.editValue 1 42 true, .tick] = some 42 ∧
+    (findPort m'.ports 1).map (fun p => (p.rq, p.lastRead, p.cached, p.provValue)) =
+      some ([], some 7, some 42, true) ∧
     (handleOnline Fix.repaired [] m' (some []) (some [⟨1, [(0, 1), (3, 4)], some (some 7)⟩])).1.filter
-      (Req.isValuePushFor 1) = [Req.patchValue 1 (some 7)] := by
+      (Req.isValuePushFor 1) = [Req.patchValue 1 (some 42)] := by
   decide
 
 /-- **Several attribute edits during one outage: exactly the last user value per edited name is pushed, in one
@@ -333,7 +401,7 @@ theorem offline_attr_edits_last_pushed_general (rf : List Nat) (m : Master) (hof
             (fun n => (attrAfter id n (pendLookup p n) h).map (fun v => (n, v)))).isEmpty then []
        else [Req.patchPort id ((namesAfter id p.prov h).filterMap
             (fun n => (attrAfter id n (pendLookup p n) h).map (fun v => (n, v))))]) := by
-  obtain ⟨p', hp', hi⟩ := runOff_attr true id h m p p.prov (pendLookup p) hoff hp hnr (invA_start p hs)
+  obtain ⟨p', hp', hi⟩ := runOff_attr true true id h m p p.prov (pendLookup p) hoff hp hnr (invA_start p hs)
   have hnd' := nodup_runOff Fix.repaired h m hoff hnd
   have hh := ((pushed_exactly_once_before_refresh rf _ d ps hnd').choose_spec.choose_spec.2.2.2.2.1 p'
     (findPort_mem_p hp')).2
